@@ -112,6 +112,27 @@ func addrStrings(as []fbb.Address) []string {
 // message must not change them
 var lastRaw, lastCopy []byte
 
+// addrWant is what the address accessors must return for an address given as text, written from the format description
+// (docs: callsigns and <call>@winlink.org are Winlink addresses, upper-cased; other mailbox@domain forms are SMTP:; an
+// explicit PROTO: prefix is kept), independently of fbb.AddressFromString.
+func addrWant(a string) string {
+	if i := strings.Index(a, ":"); i >= 0 && strings.Count(a, ":") == 1 {
+		return a
+	}
+	at := strings.Index(a, "@")
+	if at < 0 {
+		return strings.ToUpper(a)
+	}
+	if strings.Count(a, "@") == 1 && strings.EqualFold(a[at+1:], "winlink.org") {
+		return strings.ToUpper(a[:at])
+	}
+	return "SMTP:" + a
+}
+
+// the previous message object and its serialisation: building another message must not change it
+var prevMsg *fbb.Message
+var prevMsgBytes []byte
+
 func MsgEvent(b built, desc interface{}, schedules [][]int) rec.Event {
 	ev := rec.Event{"op": "Msg", "desc": desc, "earlierBytesStable": true, "panic": false, "writeErr": false, "parseErr": false, "headersEqual": false, "bodyEqual": false,
 		"filesEqual": false, "accessorsEqual": false, "reserialiseEqual": false, "chunkIndependent": true, "tailMatches": false, "hdrOrder": false}
@@ -128,6 +149,12 @@ func MsgEvent(b built, desc interface{}, schedules [][]int) rec.Event {
 			return
 		}
 		ev["size"] = len(raw)
+		if prevMsg != nil {
+			if again, err := prevMsg.Bytes(); err != nil || !bytes.Equal(again, prevMsgBytes) {
+				ev["earlierBytesStable"] = false // the message built before this one no longer serialises to what it did
+			}
+		}
+		prevMsg, prevMsgBytes = m, append([]byte(nil), raw...)
 		if lastRaw != nil && !bytes.Equal(lastRaw, lastCopy) {
 			ev["earlierBytesStable"] = false
 		}
@@ -179,10 +206,10 @@ func MsgEvent(b built, desc interface{}, schedules [][]int) rec.Event {
 		}
 		wantTo, wantCc := []string{}, []string{}
 		for _, a := range b.To {
-			wantTo = append(wantTo, fbb.AddressFromString(a).String())
+			wantTo = append(wantTo, addrWant(a))
 		}
 		for _, a := range b.Cc {
-			wantCc = append(wantCc, fbb.AddressFromString(a).String())
+			wantCc = append(wantCc, addrWant(a))
 		}
 		if !reflect.DeepEqual(addrStrings(p.To()), wantTo) || !reflect.DeepEqual(addrStrings(p.Cc()), wantCc) {
 			acc = false
@@ -192,7 +219,7 @@ func MsgEvent(b built, desc interface{}, schedules [][]int) rec.Event {
 		if from == "" {
 			from = "LA5NTA"
 		}
-		if p.From().String() != fbb.AddressFromString(from).String() || string(p.Type()) != string(m.Type()) || p.MID() != "MSGTEST00001" {
+		if p.From().String() != addrWant(from) || string(p.Type()) != string(m.Type()) || p.MID() != "MSGTEST00001" {
 			acc = false
 			ev["accdiff"] = "from/type/mid"
 		}
@@ -259,7 +286,8 @@ func MainMsg(args []string) int {
 		return 2
 	}
 	defer w.Close()
-	toSets := [][]string{{}, {"LA1B"}, {"la1b@winlink.org"}, {"foo@example.com"}, {"LA1B", "SMTP:Bar@Example.org"}, {"n0call-7", "LA1B@WINLINK.ORG"}}
+	toSets := [][]string{{}, {"LA1B"}, {"la1b@winlink.org"}, {"foo@example.com"}, {"LA1B", "SMTP:Bar@Example.org"}, {"n0call-7", "LA1B@WINLINK.ORG"},
+		{"sysop@mail.winlink.org", "Bob.Smith@darwinlink.org"}, {"ops@NOTWINLINK.ORG", "x@winlink.org.example.com"}}
 	ccSets := [][]string{{}, {"LD5SK"}, {"someone@example.com", "la9x"}}
 	subjects := []string{"plain ascii subject", "//WL2K P/ Blåbærsyltetøy på brødskiva", "", "=?not an encoded word", "inner  double space", "tab\there", strings.TrimSpace(strings.Repeat("long ", 20))}
 	names := []string{"a.txt", "blåbær syltetøy.jpg", "name with  two spaces.bin", "üñí.ç", "x"}
